@@ -114,6 +114,12 @@ var Mutants = []Mutant{
 	{ID: "str2bool-library-parser", Props: []string{"C13"}, Rule: "R-BUILTINSIG", File: "pkg/evaluator/builtin.go", Find: "\tb, err := parseBool(s.V)\n", Replace: "\tb, err := strconv.ParseBool(s.V)\n", Expect: "builtin:str2bool#documented-spellings", Describe: "str2bool accepts t, T, f, F without setting err"},
 	{ID: "builtin-runs-after-stop-in-argument", Props: []string{"C14"}, Rule: "R-YIELD", File: "pkg/evaluator/evaluator.go", Find: "\t\tif e.Stopped {\n\t\t\t// An argument such as `read` or `sleep` has handed control to\n\t\t\t// the platform, which asked to stop in the meantime.\n\t\t\treturn nil, ErrStopped\n\t\t}\n", Replace: "", Expect: "evalFunccall#builtin-call", Describe: "`print (read)` prints after Stop was pressed during read"},
 	{ID: "marked-beyond-choices-unseen", Props: []string{"C20"}, Rule: "R-CRYPTO", File: "learn/pkg/learn/question.go", Find: "\treturn m.verifyMarkedExist(correctByIndex, len(outputs))\n", Replace: "\treturn nil\n", Expect: "verifyChoiceMatch#marked-set-examined-whole", Describe: "`answer: a, z` on a three-choice question is accepted"},
+	{ID: "stack-steprange-state-size", Props: []string{"C17", "C16"}, Rule: "R-STACKEFFECT", File: "pkg/bytecode/compiler.go", Find: "rangeOp, rangeStateSize = OpStepRange, 3", Replace: "rangeOp, rangeStateSize = OpStepRange, 2", Expect: "Compile#case:ForStmt", Describe: "a numeric for loop leaves one value of its range state on the stack"},
+	{ID: "stack-vm-not-forgets-push", Props: []string{"C17", "C16"}, Rule: "R-STACKEFFECT", File: "pkg/bytecode/vm.go", Find: "\t\t\tval := vm.popBoolVal()\n\t\t\terr = vm.push(!val)", Replace: "\t\t\tval := vm.popBoolVal()\n\t\t\tvm.stack[vm.sp] = !val", Expect: "Compile#case:UnaryExpression", Describe: "OpNot stores its result without moving the stack pointer"},
+	{ID: "stack-condition-popped-before-compiled", Props: []string{"C17"}, Rule: "R-STACKEFFECT", File: "pkg/bytecode/compiler.go", Find: "\tif err := c.Compile(block.Condition); err != nil {\n\t\treturn 0, err\n\t}\n\tjumpOnFalsePos, err := c.emitPos(OpJumpOnFalse, JumpPlaceholder)\n\tif err != nil {\n\t\treturn 0, err\n\t}\n", Replace: "\tjumpOnFalsePos, err := c.emitPos(OpJumpOnFalse, JumpPlaceholder)\n\tif err != nil {\n\t\treturn 0, err\n\t}\n\tif err := c.Compile(block.Condition); err != nil {\n\t\treturn 0, err\n\t}\n", Expect: "underflow", Describe: "the conditional jump is emitted before its condition"},
+	{ID: "stack-iterrange-value-without-guard", Props: []string{"C17"}, Rule: "R-STACKEFFECT", File: "pkg/bytecode/vm.go", Find: "if val != nil && hasLoopVar != 0 {", Replace: "if hasLoopVar != 0 {", Expect: "OpIterRange", Describe: "OpIterRange pushes the loop value also when the range is exhausted"},
+	{ID: "stack-setindex-keeps-value", Props: []string{"C17", "C16"}, Rule: "R-STACKEFFECT", File: "pkg/bytecode/compiler.go", Find: "\t\tif err := c.Compile(target.Index); err != nil {\n\t\t\treturn err\n\t\t}\n\t\treturn c.emit(OpSetIndex)", Replace: "\t\tif err := c.Compile(target.Index); err != nil {\n\t\t\treturn err\n\t\t}\n\t\tif err := c.Compile(target.Index); err != nil {\n\t\t\treturn err\n\t\t}\n\t\treturn c.emit(OpSetIndex)", Expect: "Compile#case:AssignmentStmt", Describe: "an index assignment translates its index twice and leaves a value behind"},
+	{ID: "stack-while-break-target", Props: []string{"C17"}, Rule: "R-STACKEFFECT", File: "pkg/bytecode/compiler.go", Find: "\t// Prepare end position of while block, jump to end if condition is false\n\tjumpOnFalsePos, err := c.emitPos(OpJumpOnFalse, JumpPlaceholder)", Replace: "\tif err := c.emit(OpTrue); err != nil {\n\t\treturn err\n\t}\n\tif err := c.emit(OpDrop, 1); err != nil {\n\t\treturn err\n\t}\n\tif err := c.Compile(stmt.Condition); err != nil {\n\t\treturn err\n\t}\n\tjumpOnFalsePos, err := c.emitPos(OpJumpOnFalse, JumpPlaceholder)", Expect: "jump-height", Describe: "the while loop evaluates its condition twice and keeps the first result: the back jump arrives one value higher each iteration"},
 	// C08
 	{ID: "printf-composite-as-pointer", Props: []string{"C08"}, Rule: "R-ADDRPRINT", File: "pkg/evaluator/value.go", Find: "\t\treturn unwrapBasicvalue(v.V)\n\tdefault:\n\t\treturn v.String()\n\t}\n", Replace: "\t\treturn unwrapBasicvalue(v.V)\n\t}\n\treturn val\n", Expect: "sprintf#fmt-dynamic-args", Describe: "printf \"%d\" [1 2] prints a heap address"},
 	{ID: "mapstring-go-order", Props: []string{"C08", "C12"}, Rule: "R-MAPRANGE", File: "pkg/evaluator/value.go", Find: "func (m *mapVal) String() string {\n\tpairs := make([]string, 0, len(m.Pairs))\n\tfor _, key := range *m.Order {\n\t\tpairs = append(pairs, key+\":\"+m.Pairs[key].String())", Replace: "func (m *mapVal) String() string {\n\tpairs := make([]string, 0, len(m.Pairs))\n\tfor key, v := range m.Pairs {\n\t\tpairs = append(pairs, key+\":\"+v.String())", Expect: "(*mapVal).String#maprange", Describe: "maps print in Go map order"},
